@@ -324,7 +324,14 @@ var listenRe = regexp.MustCompile(`Listening on ([0-9.]+:\d+|\[[0-9A-Fa-f:.]+\]:
 func (d binary) start(cache string) started { return d.startAt(cache, defaultAddr) }
 
 func (d binary) startAt(cache, addr string) started {
+	return d.startArgs([]string{"-listen-address", addr, "-tls-certificate-cache", cache}, nil)
+}
+
+// startArgs starts the program with exactly these arguments (and these extra
+// environment variables): the configuration matrix of config.go.
+func (d binary) startArgs(args, extraEnv []string) started {
 	env := []string{"TERM=xterm", "HOME=" + d.home, "PATH=" + os.Getenv("PATH")}
+	env = append(env, extraEnv...)
 	for _, k := range []string{"GORACE", "TMPDIR"} {
 		if v, ok := os.LookupEnv(k); ok {
 			env = append(env, k+"="+v)
@@ -335,7 +342,7 @@ func (d binary) startAt(cache, addr string) started {
 	if d.dir != "" {
 		wd = d.dir
 	}
-	p, err := startOnPtyAs(d.path, []string{"-listen-address", addr, "-tls-certificate-cache", cache}, env, wd, d.uid)
+	p, err := startOnPtyAs(d.path, args, env, wd, d.uid)
 	if err != nil {
 		return started{infra: "cannot start the binary on a pty: " + err.Error()}
 	}
@@ -1543,7 +1550,7 @@ func binaryEngines(r *mon.Run, bin string, f *cacheFile) {
 // ---- Run ---------------------------------------------------------------------------------
 
 func Run(r *mon.Run) {
-	r.Rule = "fault enumeration over ONE freshly generated cache file F (created by sstls.Listen, ≈900 bytes): engine trunc = every prefix length 0…|F|−1; engine corrupt = every byte position × {flip low bit, replace by \\n, delete}, classified by region (comment, cert marker, cert PEM, key marker, key PEM) — `exhaustive` refers to these two enumerations of that one file only; the thorough tier adds engine bitflip = the other seven single-bit flips of every byte of F. Engine compose = a fixed list of multi-member damages built from two caches A and B (cert of A with key of B and vice versa, swapped/duplicated/extra/empty/missing members, PEM chains, CRLF) plus PRNG compositions. Engine perm = nesting depth 1–4 × number of pre-existing directories × umask {000,022}, in a child process per umask. Engines restart (in-process sstls.Listen) and binrestart (real -race binary on a pty) = PRNG histories over {start, stop, delete cache, start with cache path \"\", start below new directories} checked against the model identity[path] = pin served by the creating run; in two histories of three the cache files are created by a library caller (sstls.Listen) asking for another certificate lifespan (1 ns, 1 µs, 1 ms: the certificate has expired by the next start; 1 s, 1 h, 1 d, 100 y), every later start going through the engine's own driver; binfault = a PRNG sample of truncations/single-byte damages replayed through the binary. Oracle for every damaged file: start-up error, or a completed handshake presenting the original public key (identity = canonical PKIX encoding of the key the client parsed; a same key in different SubjectPublicKeyInfo bytes is counted as same_key_but_spki_bytes_differ, not judged); file bytes/inode/mtime/ctime/mode and directory listing unchanged (mtime is back-dated first so granularity cannot hide a rewrite). distinct_nontrivial = distinct damaged file contents per engine (hash; no-op damages excluded) + distinct history signatures (step kinds and paths) + distinct perm configurations + distinct crash cases + distinct foreign cases. Engine crash = REAL interrupted writes instead of planted prefixes: the cache-creating start runs in a child process (vcheck --child=c08die calling sstls.GetCertificate or sstls.Listen in a fresh directory below 0–2 not-yet-existing directories, umask 000/022/077) under RLIMIT_FSIZE = p for EVERY p in 0…|F|+3 (both tiers; thorough three times with other PRNG choices), so the kernel lets exactly p bytes of whatever file the implementation writes through and then either kills the process with SIGXFSZ (mode kill, three cases of five) or fails the write with EFBIG so that the program's own error path runs (mode efbig = what a Go program gets); plus the real binary exec'ed on a pty under the same limit (--child=c08limit; 8/80 cases); plus, when strace can attach (probed; otherwise coverage.crash_strace_dimension says NOT explored), the child under strace -e inject: SIGKILL or ENOSPC/EIO/EDQUOT at the 1st/2nd write, SIGKILL or EIO at rename*/fsync/fdatasync/link*/chmod*, at the 2nd mkdir*, SIGKILL at the 4th–6th close (an expression that matches nothing in the implementation never fires: crash_strace_fault_never_matched). Afterwards nothing is cleaned up except what an operator would do (PRNG: nothing, or deleting the cache file itself) and three later starts (in-process sstls.Listen; the real binary for some binary cases) are judged: no file at the configured path ⇒ the start must succeed, leave an owner-only regular file there and complete a handshake (missing-cache-not-regenerated otherwise, whatever else the dead run left in the directory); a file at the path ⇒ start-up error, or a completed handshake presenting a key whose certificate the harness's own PEM/x509 scan finds in that file (once a start of the case has served from / regenerated the file: exactly that key), and the file's bytes/inode/mtime/ctime/mode unchanged (back-dated first); after the dead run and after every later start every file and directory below the fresh cache directory, leftovers included, must have no group/other permission bits. What each cut-short run left (names, modes) is tallied in coverage.crash_leftovers_seen, how it ended in coverage.crash_how_the_runs_ended. Engine foreign = the mirror image of engine crash: foreign entries present BEFORE a start that has to generate the cache. One repetition (quick 1, thorough 6 with other PRNG choices) = EVERY one of 35 name patterns a temporary/backup of the cache plausibly has (<name>.tmp, .<name>.tmp, <name>~, .new, .bak, .lock, .part, .XXXXXX, .<random>, .<digits>, <stem>.tmp<ext>, …) × EVERY one of 11 kinds of entry (empty file, key-less scrap, complete cache of another identity, symbolic link to a file in the same directory / elsewhere / nowhere / to a directory, hard link to a file in the same directory / elsewhere, empty / non-empty directory) planted in the existing cache directory with a lax mode (0644 0666 0664 0640 0604 0660 0444 0755 0606; directories 0755 0777 0775 0750 1777); every pattern planted in the deepest existing parent while 1–2 cache directories are still to be made (applied to the cache name and to the first missing directory's name); an EMPTY file with each lax mode, or a dangling symbolic link, at the cache path itself; 60 PRNG mixtures of 2–6 entries in the cache directory and its parent; 12 controls (nothing planted / only a 0600 file); cache names cert.txtar, cache, tls.cache.txtar; base and 0–2 pre-existing directories above with lax modes (never judged: only directories created for the cache are the program's); umasks 000 022 077 027 002 007, one child process (--child=c08foreign, in-process sstls.Listen) per umask; engine binforeign = 6/48 PRNG-picked cases of that list through the real binary. Oracle: no file at the cache path ⇒ the start must succeed (missing-cache-not-regenerated; an empty file at the path is an incomplete write: error expected, file untouched; a failing start with a dangling link at the path is counted, not judged); afterwards the harness scans every regular file below the case root (cache directories, parents, the `elsewhere` directory the planted links point into) with its own PEM/PKCS#8/SEC1 parse + DER search for the private key of the identity the start serves: every inode holding it must have no group/other bits (cache-file-mode when it is the file behind the cache path — e.g. a planted lax file that was truncated, filled and renamed into place keeps its mode — otherwise private-key-in-lax-file), the file behind the cache path must be a regular owner-only file, directories created for the cache owner-only, nothing added but the cache file and those directories (planted entries may disappear: counted); two later starts must serve the same key and leave the file's bytes/inode/times/mode alone, and the scan is repeated. Engines failstart (sstls.Listen) and binfailstart (real binary on a pty) = the restart histories again (same step kinds, same model, files created with other lifespans in two of three) with one more step kind drawn half of the time and always as the second step, while the first start is still up: a start that FAILS for a reason that has nothing to do with the cache, because its listen address cannot be bound — kind inuse = the address:port of an instance of the same history that is still running (up to three are kept up), inuse-foreign = the address:port of a plain TCP listener the harness holds, notlocal = an address no interface has (203.0.113.1:0, 198.51.100.7:4443, 203.0.113.200:443, [2001:db8::1]:0), malformed = 127.0.0.1:99999, [::1, 127.0.0.1, 127.0.0.1:-1, ::1:0, [127.0.0.1:0, 127.0.0.1:65536 and, for the library only, nonsense, 127.0.0.1:0:0 (the program appends :0 to an address without a port: 127.0.0.1 is an ordinary address for it, ::1:0 an address no interface has, and a bare word would be looked up as a host name), privport = 127.0.0.1:<port below net.ipv4.ip_unprivileged_port_start> in histories all of whose runs are processes of uid 65534 in a tree owned by that user (every fourth failstart history through --child=c08listen = sstls.Listen + handshake loop in its own process, every second binfailstart history = the program started with that credential; coverage.failstart_privport_dimension says what was possible) — × the cache path given to the failing start: a tracked path with a cache (three draws of five), a tracked path whose cache is missing, a new path below 1–3 not-yet-existing directories. Whether the start fails is observed (one that listens after all is judged as the ordinary start it then is; failstart_listened_after_all). Oracle = the same model: a cache file that existed before the failing start has the same bytes/inode/mtime/ctime/mode after it and nothing was added next to it (failed-start-touched-cache), every other tracked file is untouched, and every later start with that path — the history goes on, and ends with one more start per existing cache — serves the key of the run that created the file; with no file at the path the failing run may leave nothing (a later start regenerates) or a file: that file and the directories made for it must be owner-only, nothing else may have been created, and a later start on it fails with an error or serves a key whose certificate the harness's own PEM/x509 scan finds in the file, from then on exactly that key, file untouched. Engines pathshape (sstls.Listen; for relative paths in a process of its own, --child=c08listen, whose working directory is the case's) and binpathshape (the real binary on a pty, started in that working directory) = the SHAPE of the configured cache path within the system's limits (PATH_MAX = 4096 bytes per path argument, NAME_MAX = 255 bytes per component; the work directory's file system is probed for both first, see coverage.pathshape_dimension): one case = one PRNG-built path whose length AS GIVEN to the program lies in one of four bands 256–511 / 512–1023 / 1024–2047 / 2048–3900 bytes, or is one of the exact totals 200 255 256 257 300 511 512 513 1023 1024 1025 2047 2048 2049 (the two below 256 are controls) × shape {deep = 20–200 and more directories of 1–24 bytes; long = components of 200–255 bytes, 255 itself in a third of the draws, the file name possibly one of them; mixed} × form {absolute; t/…, ./t/…, ../t/… relative to the working directory of the run} × parents {none of the directories exists; a leading part exists; all exist — made 0755 by the harness and never judged} × spelling (every other case: \".\" components, doubled slashes, components that end in a dot, start with a dot or are \"...\", and \"..\" directly behind a directory that exists). Sequence and oracle, the same as for every missing cache: first start — must succeed (missing-cache-not-regenerated), the file is regular and owner-only, every directory the start created is owner-only (cache-file-mode, cache-dir-mode), nothing else appeared below the case root or in $HOME (stray-file-created); second start — same key, file bytes/inode/mtime/ctime/mode unchanged (back-dated first); the operator deletes the file; third start — regenerates with every parent existing, judged like the first; fourth start, always through the library — the third one's key, file untouched. The per-value counters pathshape_cases_* have floors: a run in which a band, shape, form, parent state, spelling or driver was not judged is inconclusive"
+	r.Rule = "fault enumeration over ONE freshly generated cache file F (created by sstls.Listen, ≈900 bytes): engine trunc = every prefix length 0…|F|−1; engine corrupt = every byte position × {flip low bit, replace by \\n, delete}, classified by region (comment, cert marker, cert PEM, key marker, key PEM) — `exhaustive` refers to these two enumerations of that one file only; the thorough tier adds engine bitflip = the other seven single-bit flips of every byte of F. Engine compose = a fixed list of multi-member damages built from two caches A and B (cert of A with key of B and vice versa, swapped/duplicated/extra/empty/missing members, PEM chains, CRLF) plus PRNG compositions. Engine perm = nesting depth 1–4 × number of pre-existing directories × umask {000,022}, in a child process per umask. Engines restart (in-process sstls.Listen) and binrestart (real -race binary on a pty) = PRNG histories over {start, stop, delete cache, start with cache path \"\", start below new directories} checked against the model identity[path] = pin served by the creating run; in two histories of three the cache files are created by a library caller (sstls.Listen) asking for another certificate lifespan (1 ns, 1 µs, 1 ms: the certificate has expired by the next start; 1 s, 1 h, 1 d, 100 y), every later start going through the engine's own driver; binfault = a PRNG sample of truncations/single-byte damages replayed through the binary. Oracle for every damaged file: start-up error, or a completed handshake presenting the original public key (identity = canonical PKIX encoding of the key the client parsed; a same key in different SubjectPublicKeyInfo bytes is counted as same_key_but_spki_bytes_differ, not judged); file bytes/inode/mtime/ctime/mode and directory listing unchanged (mtime is back-dated first so granularity cannot hide a rewrite). distinct_nontrivial = distinct damaged file contents per engine (hash; no-op damages excluded) + distinct history signatures (step kinds and paths) + distinct perm configurations + distinct crash cases + distinct foreign cases. Engine crash = REAL interrupted writes instead of planted prefixes: the cache-creating start runs in a child process (vcheck --child=c08die calling sstls.GetCertificate or sstls.Listen in a fresh directory below 0–2 not-yet-existing directories, umask 000/022/077) under RLIMIT_FSIZE = p for EVERY p in 0…|F|+3 (both tiers; thorough three times with other PRNG choices), so the kernel lets exactly p bytes of whatever file the implementation writes through and then either kills the process with SIGXFSZ (mode kill, three cases of five) or fails the write with EFBIG so that the program's own error path runs (mode efbig = what a Go program gets); plus the real binary exec'ed on a pty under the same limit (--child=c08limit; 8/80 cases); plus, when strace can attach (probed; otherwise coverage.crash_strace_dimension says NOT explored), the child under strace -e inject: SIGKILL or ENOSPC/EIO/EDQUOT at the 1st/2nd write, SIGKILL or EIO at rename*/fsync/fdatasync/link*/chmod*, at the 2nd mkdir*, SIGKILL at the 4th–6th close (an expression that matches nothing in the implementation never fires: crash_strace_fault_never_matched). Afterwards nothing is cleaned up except what an operator would do (PRNG: nothing, or deleting the cache file itself) and three later starts (in-process sstls.Listen; the real binary for some binary cases) are judged: no file at the configured path ⇒ the start must succeed, leave an owner-only regular file there and complete a handshake (missing-cache-not-regenerated otherwise, whatever else the dead run left in the directory); a file at the path ⇒ start-up error, or a completed handshake presenting a key whose certificate the harness's own PEM/x509 scan finds in that file (once a start of the case has served from / regenerated the file: exactly that key), and the file's bytes/inode/mtime/ctime/mode unchanged (back-dated first); after the dead run and after every later start every file and directory below the fresh cache directory, leftovers included, must have no group/other permission bits. What each cut-short run left (names, modes) is tallied in coverage.crash_leftovers_seen, how it ended in coverage.crash_how_the_runs_ended. Engine foreign = the mirror image of engine crash: foreign entries present BEFORE a start that has to generate the cache. One repetition (quick 1, thorough 6 with other PRNG choices) = EVERY one of 35 name patterns a temporary/backup of the cache plausibly has (<name>.tmp, .<name>.tmp, <name>~, .new, .bak, .lock, .part, .XXXXXX, .<random>, .<digits>, <stem>.tmp<ext>, …) × EVERY one of 11 kinds of entry (empty file, key-less scrap, complete cache of another identity, symbolic link to a file in the same directory / elsewhere / nowhere / to a directory, hard link to a file in the same directory / elsewhere, empty / non-empty directory) planted in the existing cache directory with a lax mode (0644 0666 0664 0640 0604 0660 0444 0755 0606; directories 0755 0777 0775 0750 1777); every pattern planted in the deepest existing parent while 1–2 cache directories are still to be made (applied to the cache name and to the first missing directory's name); an EMPTY file with each lax mode, or a dangling symbolic link, at the cache path itself; 60 PRNG mixtures of 2–6 entries in the cache directory and its parent; 12 controls (nothing planted / only a 0600 file); cache names cert.txtar, cache, tls.cache.txtar; base and 0–2 pre-existing directories above with lax modes (never judged: only directories created for the cache are the program's); umasks 000 022 077 027 002 007, one child process (--child=c08foreign, in-process sstls.Listen) per umask; engine binforeign = 6/48 PRNG-picked cases of that list through the real binary. Oracle: no file at the cache path ⇒ the start must succeed (missing-cache-not-regenerated; an empty file at the path is an incomplete write: error expected, file untouched; a failing start with a dangling link at the path is counted, not judged); afterwards the harness scans every regular file below the case root (cache directories, parents, the `elsewhere` directory the planted links point into) with its own PEM/PKCS#8/SEC1 parse + DER search for the private key of the identity the start serves: every inode holding it must have no group/other bits (cache-file-mode when it is the file behind the cache path — e.g. a planted lax file that was truncated, filled and renamed into place keeps its mode — otherwise private-key-in-lax-file), the file behind the cache path must be a regular owner-only file, directories created for the cache owner-only, nothing added but the cache file and those directories (planted entries may disappear: counted); two later starts must serve the same key and leave the file's bytes/inode/times/mode alone, and the scan is repeated. Engines failstart (sstls.Listen) and binfailstart (real binary on a pty) = the restart histories again (same step kinds, same model, files created with other lifespans in two of three) with one more step kind drawn half of the time and always as the second step, while the first start is still up: a start that FAILS for a reason that has nothing to do with the cache, because its listen address cannot be bound — kind inuse = the address:port of an instance of the same history that is still running (up to three are kept up), inuse-foreign = the address:port of a plain TCP listener the harness holds, notlocal = an address no interface has (203.0.113.1:0, 198.51.100.7:4443, 203.0.113.200:443, [2001:db8::1]:0), malformed = 127.0.0.1:99999, [::1, 127.0.0.1, 127.0.0.1:-1, ::1:0, [127.0.0.1:0, 127.0.0.1:65536 and, for the library only, nonsense, 127.0.0.1:0:0 (the program appends :0 to an address without a port: 127.0.0.1 is an ordinary address for it, ::1:0 an address no interface has, and a bare word would be looked up as a host name), privport = 127.0.0.1:<port below net.ipv4.ip_unprivileged_port_start> in histories all of whose runs are processes of uid 65534 in a tree owned by that user (every fourth failstart history through --child=c08listen = sstls.Listen + handshake loop in its own process, every second binfailstart history = the program started with that credential; coverage.failstart_privport_dimension says what was possible) — × the cache path given to the failing start: a tracked path with a cache (three draws of five), a tracked path whose cache is missing, a new path below 1–3 not-yet-existing directories. Whether the start fails is observed (one that listens after all is judged as the ordinary start it then is; failstart_listened_after_all). Oracle = the same model: a cache file that existed before the failing start has the same bytes/inode/mtime/ctime/mode after it and nothing was added next to it (failed-start-touched-cache), every other tracked file is untouched, and every later start with that path — the history goes on, and ends with one more start per existing cache — serves the key of the run that created the file; with no file at the path the failing run may leave nothing (a later start regenerates) or a file: that file and the directories made for it must be owner-only, nothing else may have been created, and a later start on it fails with an error or serves a key whose certificate the harness's own PEM/x509 scan finds in the file, from then on exactly that key, file untouched. Engines pathshape (sstls.Listen; for relative paths in a process of its own, --child=c08listen, whose working directory is the case's) and binpathshape (the real binary on a pty, started in that working directory) = the SHAPE of the configured cache path within the system's limits (PATH_MAX = 4096 bytes per path argument, NAME_MAX = 255 bytes per component; the work directory's file system is probed for both first, see coverage.pathshape_dimension): one case = one PRNG-built path whose length AS GIVEN to the program lies in one of four bands 256–511 / 512–1023 / 1024–2047 / 2048–3900 bytes, or is one of the exact totals 200 255 256 257 300 511 512 513 1023 1024 1025 2047 2048 2049 (the two below 256 are controls) × shape {deep = 20–200 and more directories of 1–24 bytes; long = components of 200–255 bytes, 255 itself in a third of the draws, the file name possibly one of them; mixed} × form {absolute; t/…, ./t/…, ../t/… relative to the working directory of the run} × parents {none of the directories exists; a leading part exists; all exist — made 0755 by the harness and never judged} × spelling (every other case: \".\" components, doubled slashes, components that end in a dot, start with a dot or are \"...\", and \"..\" directly behind a directory that exists). Sequence and oracle, the same as for every missing cache: first start — must succeed (missing-cache-not-regenerated), the file is regular and owner-only, every directory the start created is owner-only (cache-file-mode, cache-dir-mode), nothing else appeared below the case root or in $HOME (stray-file-created); second start — same key, file bytes/inode/mtime/ctime/mode unchanged (back-dated first); the operator deletes the file; third start — regenerates with every parent existing, judged like the first; fourth start, always through the library — the third one's key, file untouched. The per-value counters pathshape_cases_* have floors: a run in which a band, shape, form, parent state, spelling or driver was not judged is inconclusive. Engines config (hsrv.New in-process through mon/hk, called with the parameters main passes: the level where the value of -tls-certificate-cache is handed on to lib/sstls) and binconfig (the real binary on a pty, working directory = the case's) = the CONFIGURATION MATRIX: every other engine configures nothing but the cache path and the listen address; here the missing-cache / restart / damaged-cache histories are repeated under the program's other documented options, with the same oracle (the statement makes no exception for any configuration). Dimension 1 = -serve-files-from with a path RELATED to the cache path, names drawn by PRNG: none; unrelated; cache-in-served; cache-deep-in-served (below not-yet-existing directories of the served one); sibling-prefix-dir (cache in a directory whose name is the served directory's name plus -keys _tls 2 .d s .cache ~ ' keys'); sibling-prefix-file (cache = served name + .txtar .cache -cert.txtar .txtar.pem _); served-in-cache-dir; cache-prefix-of-served (served = cache path + .d -files _pub 2); served-single-file (a regular file; cache = that name + .txtar or below it + -k); served-is-cache-file; served-empty (flag given with an empty value); spaces (names with spaces at both edges); served-symlink (cache inside the link's target / reached through the link / next to either); served-ancestor (working directory, case root, its parent, /); unclean (/./ // x/../ trailing / and /. in both paths); binary only: relative (served and cache as a, ./a, a/, ../w/a, mixed with absolute) and default-cache (no cache flag: the location the program's own -h names below $HOME, served = its directory / that directory's parent / a sibling whose name is a string prefix / the file name without extension / $HOME / elsewhere). Dimension 2 = the other options: one-shell, callback-address (one / 24–48), callback-template (regular file / symbolic link / missing, NEXT TO the cache file: <cache>.tmpl), ipv6-one-liners, listen-address without port, listen-address [::1]:0 (if ::1 can be bound here); binary only: ctrl-i (file / directory / missing / a name with %d %s and spaces at the edges, next to the cache), log and CURLREVSHELL_LOG (a file next to the cache), no-timestamps, prompt, the cache flag given twice (another path first; the last one counts), one-shell given twice, icanhazip (no network: the start fails for that reason and is only required to leave the cache alone), print-ctrl-i and print-default-template (the program prints and exits: only required to leave the cache alone). Flag spelling of the binary cases by index: -flag value / -flag=value / --flag value / --flag=value (boolean flags as -flag=true in the = styles), cache flag first or last. Case list: every relation without and with one-shell (binary, quick tier: alternately, parity drawn by PRNG), every option alone (without served path / with a drawn related one, alternately), then pairs of options in PRNG-shuffled order with a drawn relation (hsrv 90/1200, binary 10/400). One case = cache created by a start under the configuration (even index; first start must succeed, leave a regular owner-only file and owner-only directories: missing-cache-not-regenerated, cache-file-mode, cache-dir-mode) or by a plain sstls.Listen run that had none of the options (odd index); restarts (2 / binary 1) must serve the creator's key (…-restart-served-different-key) and leave bytes/inode/mtime/ctime/mode alone (…-file-rewritten; back-dated first); 6/10 (binary 2/4) damaged versions planted in place, classes rotating over trunc-any trunc-empty trunc-in-key trunc-in-cert flip-certpem flip-keypem nl-marker del-any: start-up error or the creator's key (…-damaged-<class>-served-different-key), file untouched; the operator deletes the file: the next start must regenerate it owner-only, and one more restart serves that key. Counters cfg_<level>_serve_<relation>, cfg_<level>_option_<option>, cfg_binary_spelling_<style>, cfg_<level>_distinct_pairs_of_dimensions (pairs listed in coverage.cfg_<level>_pairs_exercised) and the per-history counters have floors: a run in which a relation, option, spelling, damage class or level was not exercised is inconclusive"
 	r.Assumptions = []string{
 		"engines trunc/corrupt/compose/binfault model torn writes as prefixes of the final content planted at the configured path (what a crash during os.WriteFile of a new file leaves); engine crash makes no such assumption: the writing process really is killed (SIGXFSZ via RLIMIT_FSIZE after exactly p bytes, SIGKILL injected by strace) or its write really fails (EFBIG, injected ENOSPC/EIO/EDQUOT) and whatever it left is what later runs meet. Power loss with reordered block writes is not modelled",
 		"engine crash: the real binary cannot be killed at byte granularity without a tracer (the Go runtime drops SIGXFSZ, so under RLIMIT_FSIZE its write fails with EFBIG and it exits with an error); deaths mid-write are produced in the library child, which runs the same sstls.GetCertificate/Listen code",
@@ -1557,17 +1564,33 @@ func Run(r *mon.Run) {
 		"engines failstart/binfailstart: a start that cannot listen is still 'a run with a certificate cache file configured' — it loads or generates the cache before it tries to bind — so 'an existing cache file is never rewritten' and the identity of later runs are demanded across it; nothing is demanded of the failing run's error text or exit status (C20's subject). A file the failing run generated before it failed was never served to anybody: its identity is taken from the certificates the harness finds in it, and a later run refusing it with an error is accepted (counted as failstart_leftover_refused_later)",
 		"engines failstart/binfailstart: the addresses used to make listening fail touch no network: documentation-prefix addresses are only bound, never connected to, and no host names are used; on a system where such a bind succeeds (ip_nonlocal_bind, no privileged ports) the step is an ordinary start and the per-kind floor reports the dimension as not exercised",
 		"engines pathshape/binpathshape: 'within the system's limits' = the string handed to the program is at most 3900 bytes long (PATH_MAX, 4096, applies to each path argument) and no component exceeds 255 bytes (NAME_MAX); relative paths are kept short enough for their absolute equivalent to stay below 4000 bytes so that the harness itself can lstat what was made. \"..\" is only placed directly behind a directory that exists (and is no symbolic link), where a lexical reading of the path and the kernel's agree; \"..\" behind a directory that is still to be made has no agreed meaning and is not used. Whether the file system below the work directory takes such names at all is probed by the harness with its own mkdir/open; if it does not, the dimension is reported as not explored and the run is inconclusive",
+		"engines config/binconfig: the property does not depend on the configuration: a run with -one-shell, -serve-files-from (whatever its relation to the cache path), a log file, etc. is still 'a run with a certificate cache file configured'. Runs that by documented design never serve (-print-ctrl-i, -print-default-template) or that fail for the option's own reason (-icanhazip without a network) are only required to leave the cache file alone; a start on a HEALTHY cache that fails under any other configuration is inconclusive (as in engine perm), never passed over. Files of other options placed next to the cache need the cache's directory to exist: it is then made by the harness (0755) beforehand and not judged; only directories the program creates are. With the cache flag given twice only the last value is the configured cache (package flag semantics); nothing is demanded about the first. Relative paths are only given to the real binary (the in-process server shares the harness's working directory)",
 		"engine foreign: a key that ends up in a planted inode whose mode the program tightened to owner-only before writing is counted (foreign_key_in_planted_inode_tightened_first), not judged; pre-existing directories keep whatever mode they had and are not judged; FIFOs/devices under temporary-like names are not planted (opening them would block, a progress question this property does not ask)",
 	}
 
 	var bin string
 	var binErr error
 	binDone := make(chan struct{})
-	wantBin := r.WantEngine("binrestart") || r.WantEngine("binfault") || r.WantEngine("crash") || r.WantEngine("binforeign") || r.WantEngine("binfailstart") || r.WantEngine("binpathshape")
+	wantBin := r.WantEngine("binconfig") || r.WantEngine("binrestart") || r.WantEngine("binfault") || r.WantEngine("crash") || r.WantEngine("binforeign") || r.WantEngine("binfailstart") || r.WantEngine("binpathshape")
 	go func() {
 		defer close(binDone)
 		if wantBin {
 			bin, binErr = buildBinary(r)
+		}
+	}()
+
+	// engines config / binconfig (config.go) run next to the other engines
+	cfgDone := make(chan struct{})
+	go func() {
+		defer close(cfgDone)
+		if r.WantEngine("config") {
+			configEngine(r, "")
+			r.Logf("config done")
+		}
+		<-binDone
+		if r.WantEngine("binconfig") && binErr == nil && bin != "" {
+			configEngine(r, bin)
+			r.Logf("binconfig done")
 		}
 	}()
 
@@ -1674,6 +1697,7 @@ func Run(r *mon.Run) {
 		crashEngine(r, bin, nominal)
 		r.Logf("crash done")
 	}
+	<-cfgDone
 	if !r.Replaying() {
 		r.Exhaustive(fa != nil) // the prefix and single-byte enumerations of F ran completely (see Rule)
 	}
@@ -1741,4 +1765,6 @@ func Run(r *mon.Run) {
 	failstartFloors(r)
 	// engines pathshape / binpathshape: long, deep and oddly spelt cache paths
 	pathshapeFloors(r)
+	// engines config / binconfig: the configuration matrix
+	configFloors(r, binErr == nil)
 }
